@@ -83,6 +83,11 @@ func vfHammerRound(e *vfEnv, r *vfResult, idx int, loopback bool) { //nolint:cyc
 	rng := e.rng(idx, "hammer")
 	sw := newVfSwitch()
 	withMux := loopback && rng.IntN(2) == 0
+	if rng.IntN(2) == 0 {
+		// seeded pauses at the hand-off points of the task loop, the notifier drain loops and the mux (hook H2)
+		vfSetYield(newVfYieldPolicy(rand.New(rand.NewPCG(e.seed+uint64(idx), 77)), map[string]int{"*": 100}, 120)) //nolint:gosec
+		defer vfSetYield(nil)
+	}
 	var muxClosers []func()
 	defer func() {
 		for _, f := range muxClosers {
